@@ -1,9 +1,10 @@
 """C06 - str / literals round-trip: printed values and code compile back to equal values.
-Two halves: values (booleans, strings, numbers, nested arrays: checks/C06_values.py, coq/Num) and code
-(str of code and the pretty printer: checks/C06_code.py, coq/Syntax)."""
+Three parts: values (booleans, strings, numbers, nested arrays: checks/C06_values.py, coq/Num), histories (str of an array
+that was printed before and changed in place since: checks/C06_hist.py, same harness and model) and code (str of code and
+the pretty printer: checks/C06_code.py, coq/Syntax)."""
 import json
 import vcommon as V
-import C06_values, C06_code
+import C06_values, C06_code, C06_hist
 
 PID = "C06"
 
@@ -17,6 +18,8 @@ def main(replay=None):
     counts = {}
     if rp is None or rp.get("part") == "values":
         counts["values"] = C06_values.run_part(run, rp)
+    if rp is None or rp.get("part") == "history":
+        counts["history"] = C06_hist.run_part(run, rp)
     if rp is None or rp.get("part") == "code":
         c = C06_code.run_part(run, rp) or {}
         counts["code"] = c
